@@ -189,6 +189,37 @@ Definition add_from_str (s : net) (reaction : string) (rule : option string) (pa
       end
   end.
 
+(** re.search of  \| \s* rule \s* = \s* [^\s]+  in a line (used by parse_rxns to decide whether a suffix may override
+    an explicit per-line rule) *)
+Fixpoint bar_rule_search (l : chars) : bool :=
+  match l with
+  | [] => false
+  | a :: t => (is_char "|" a && bool_decide (is_Some (rule_at (drop_while py_space t)))) || bar_rule_search t
+  end.
+
+(** one (line, explicit_rule) item of parse_rxns; [explicit = None] is a plain string (or a tuple/mapping entry whose
+    rule is None) *)
+Definition parse_item (s : net) (line : string) (explicit : option string) (default_rule : string)
+    (parse_suffix prefer_suffix : bool) : net * option cerr :=
+  match explicit with
+  | Some r =>
+      if prefer_suffix && parse_suffix then
+        if bar_rule_search (to_chars line) then add_from_str s line None true
+        else add_from_str s line (Some r) false
+      else add_from_str s line (Some r) false
+  | None => if parse_suffix then add_from_str s line None true
+            else add_from_str s line (Some default_rule) false
+  end.
+
+(** parse_rxns on (line, rule) items: Iterable[Tuple], Mapping.items(), or lines zipped with [rules] *)
+Definition parse_items (s : net) (items : list (string * option string)) (default_rule : string)
+    (parse_suffix prefer_suffix : bool) : net * option cerr :=
+  foldl (λ acc it,
+           match acc with
+           | (s, Some e) => (s, Some e)
+           | (s, None) => parse_item s it.1 it.2 default_rule parse_suffix prefer_suffix
+           end) (s, None) items.
+
 (** parse_rxns on an iterable of plain strings (the only form rxns_to_hypergraph produces): no explicit
     per-line rule, so [prefer_suffix] is never consulted and [default_rule] is used only when suffix
     parsing is off. *)
@@ -496,7 +527,9 @@ Inductive view :=
 | VSg (include_mol mol_attr : bool)
 | VSide (s : string)
 | VLine (line : string) (rule : option string) (parse_suffix : bool)
-| VParse (lines : list string) (default_rule : string) (parse_suffix prefer_suffix : bool).
+| VParse (lines : list string) (default_rule : string) (parse_suffix prefer_suffix : bool)
+| VSgX (include_mol : bool)                                   (* export only: _as_species_graph, backend *)
+| VItems (items : list (string * option string)) (default_rule : string) (parse_suffix prefer_suffix : bool).
 
 Definition pick_first (X : gset string) : string := default "" (head (elements X)).
 
@@ -520,8 +553,28 @@ Definition run_view (H : net) (v : view) : tok :=
   | VSide s => match from_str s with Some sd => L [I 0; tside sd] | None => L [I 4] end
   | VLine line rule ps => tres tnet_plain (add_from_str empty_net line rule ps)
   | VParse lines dr ps pf => tres tnet_plain (rxns_to_hypergraph lines dr ps pf)
+  | VSgX include_mol => L [tsgraph (hypergraph_to_species_graph include_mol H)]
+  | VItems items dr ps pf => tres tnet_plain (parse_items empty_net items dr ps pf)
+  end.
+
+(** in-place edits of the network between two batches of views (public mutators; an error leaves the state the code leaves) *)
+Inductive edit :=
+| EAdd (eid : option string) (rule : string) (l r : list (string * Z))
+| ERmRxn (e : string)
+| ERmSp (x : string) (prune : bool)
+| EMol (x m : string).
+Definition apply_edit (s : net) (ed : edit) : net :=
+  match ed with
+  | EAdd eid rule l r => (add s (normalize l) (normalize r) rule eid).1.1
+  | ERmRxn e => (remove_rxn s e).1
+  | ERmSp x p => (remove_species s x p).1
+  | EMol x m => (assign_mol s x m).1
   end.
 
 (** the network is observed before and after the views (the implementation runs them all on ONE object: an export that
     mutated it would show here) *)
 Definition run_case (H : net) (vs : list view) : tok := L (tnet_plain H :: (run_view H <$> vs) ++ [tnet_plain H]).
+
+(** a history: views, then in-place edits of the same object, then views again *)
+Definition run_case2 (H : net) (vs : list view) (eds : list edit) (vs2 : list view) : tok :=
+  L [run_case H vs; run_case (foldl apply_edit H eds) vs2].
